@@ -189,12 +189,15 @@ Proof.
   eexists. reflexivity.
 Qed.
 
-(* ---------- the SkipN contract of Proofs/SkipDecodersP.v (Section Tpl) ---------- *)
-(* state s, started at source position p0 of the stream d0, will deliver exactly r next *)
-Definition rf_rep (d0 : bytes) (p0 : N) (s : rf_state) (r : bytes) : Prop :=
+(* ---------- the SkipN contract (Proofs/SkipDecodersP.v Section Tpl, Proofs/TskipAcceptP.v) ---------- *)
+(* state s, started at source position p0 of the stream d0, will deliver exactly r next;
+   its private buffer holds the rf_n s bytes delivered since p0 *)
+Definition rf_rep0 (d0 : bytes) (p0 : N) (s : rf_state) (r : bytes) : Prop :=
   sdata (rf_src s) = d0 /\ spos (rf_src s) = p0 + rf_n s /\ spos (rf_src s) <= len d0 /\
-  r = drop (spos (rf_src s)) d0 /\ rf_buf s = take (rf_n s) (drop p0 d0) /\ wf d0 /\
-  sfinal (rf_src s) <> e_fuel.
+  r = drop (spos (rf_src s)) d0 /\ rf_buf s = take (rf_n s) (drop p0 d0) /\ wf d0.
+(* ... and its final error is a real error code (needed for the failing half only) *)
+Definition rf_rep (d0 : bytes) (p0 : N) (s : rf_state) (r : bytes) : Prop :=
+  rf_rep0 d0 p0 s r /\ sfinal (rf_src s) <> e_fuel.
 
 Lemma wf_drop' n r : wf r -> wf (drop n r).
 Proof.
@@ -202,17 +205,19 @@ Proof.
   rewrite <- (firstn_skipn (N.to_nat n) r). apply in_or_app. right. exact Hx.
 Qed.
 
-Lemma rf_SN_ok d0 p0 : forall s r n, rf_rep d0 p0 s r -> n <= len r ->
-  exists s', rf_skipN s n = (s', Ok (take n r)) /\ rf_rep d0 p0 s' (drop n r).
+Lemma rf_SN_ok0 d0 p0 : forall s r n, rf_rep0 d0 p0 s r -> n <= len r ->
+  exists s', rf_skipN s n = (s', Ok (take n r)) /\ rf_rep0 d0 p0 s' (drop n r) /\
+             sfinal (rf_src s') = sfinal (rf_src s) /\ swith (rf_src s') = swith (rf_src s).
 Proof.
-  intros s r n (Hd & Hp & Hle & Hr & Hb & W & Hf) Hn.
+  intros s r n (Hd & Hp & Hle & Hr & Hb & W) Hn.
   assert (Hok : src_ok (rf_src s)) by (unfold src_ok; rewrite Hd; exact Hle).
   assert (Hsr : srest (rf_src s) = r) by (unfold srest; rewrite Hd; symmetry; exact Hr).
   destruct (rf_skipN_enough s n Hok ltac:(rewrite Hsr; exact Hn))
     as (s' & E & Hn' & Hb' & Hd' & Hf' & Hw' & Hp').
   rewrite Hsr in *. exists s'. split; [exact E|].
   assert (Hlr : len r = len d0 - spos (rf_src s)) by (rewrite Hr; apply drop_len; exact Hle).
-  unfold rf_rep. repeat split.
+  split; [|split; assumption].
+  unfold rf_rep0. repeat split.
   - congruence.
   - rewrite Hp', Hn', Hp. lia.
   - rewrite Hp'. lia.
@@ -220,13 +225,22 @@ Proof.
   - rewrite Hb', Hn', Hb, Hr, Hp. rewrite <- (drop_drop (rf_n s) p0 d0).
     replace n with (rf_n s + n - rf_n s) at 1 by lia. apply take_split. lia.
   - exact W.
-  - rewrite Hf'. exact Hf.
+Qed.
+
+Lemma rf_rep0_wf d0 p0 : forall s r, rf_rep0 d0 p0 s r -> wf r.
+Proof. intros s r (_ & _ & _ & -> & _ & W). apply wf_drop'. exact W. Qed.
+
+Lemma rf_SN_ok d0 p0 : forall s r n, rf_rep d0 p0 s r -> n <= len r ->
+  exists s', rf_skipN s n = (s', Ok (take n r)) /\ rf_rep d0 p0 s' (drop n r).
+Proof.
+  intros s r n [H0 Hf] Hn. destruct (rf_SN_ok0 d0 p0 s r n H0 Hn) as (s' & E & H0' & Hf' & _).
+  exists s'. split; [exact E|]. split; [exact H0'|]. rewrite Hf'. exact Hf.
 Qed.
 
 Lemma rf_SN_fail d0 p0 : forall s r n, rf_rep d0 p0 s r -> len r < n ->
   exists s' c, rf_skipN s n = (s', Err c) /\ c <> e_fuel.
 Proof.
-  intros s r n (Hd & Hp & Hle & Hr & Hb & W & Hf) Hn.
+  intros s r n [(Hd & Hp & Hle & Hr & Hb & W) Hf] Hn.
   assert (Hok : src_ok (rf_src s)) by (unfold src_ok; rewrite Hd; exact Hle).
   assert (Hsr : srest (rf_src s) = r) by (unfold srest; rewrite Hd; symmetry; exact Hr).
   destruct (rf_skipN_short s n Hok ltac:(rewrite Hsr; exact Hn)) as (s' & E).
@@ -234,4 +248,4 @@ Proof.
 Qed.
 
 Lemma rf_rep_wf d0 p0 : forall s r, rf_rep d0 p0 s r -> wf r.
-Proof. intros s r (_ & _ & _ & -> & _ & W & _). apply wf_drop'. exact W. Qed.
+Proof. intros s r [H _]. exact (rf_rep0_wf d0 p0 s r H). Qed.
